@@ -2133,7 +2133,10 @@ func (f *formatter) writeMultilineCommentsMaybeCompact(comments ast.Comments, fo
 //	}
 func (f *formatter) writeInlineComments(comments ast.Comments) {
 	for i := range comments.Len() {
-		if i > 0 || comments.Index(i).LeadingWhitespace() != "" || f.lastWritten == ';' || f.lastWritten == '}' {
+		// There is never a space between an open paren/bracket and a comment,
+		// as when the comment is written as part of an in-line node.
+		afterOpen := strings.ContainsRune("<[{(", f.lastWritten)
+		if !afterOpen && (i > 0 || comments.Index(i).LeadingWhitespace() != "" || f.lastWritten == ';' || f.lastWritten == '}') {
 			f.Space()
 		}
 		text := comments.Index(i).RawText()
